@@ -1,7 +1,7 @@
 """C14 — SparseMerkleTree is a fixed-depth map whose root and branches always verify."""
 from trie.smt import SparseMerkleTree, calc_root
 
-from ..core import HarnessError, Violation, deep, hx, unhx
+from ..core import Blob, HarnessError, Violation, deep, fresh, hx, unhx
 from ..models.smtref import RefSMT
 from ..hworld import in_handler
 from ..simdb import SimDB
@@ -47,7 +47,7 @@ class SWorld:
         self.st = st
         self.ks = int(cfg["ks"])
         self.default = unhx(cfg["default"])
-        self.smt = SparseMerkleTree(key_size=self.ks, default=self.default)
+        self.smt = SparseMerkleTree(key_size=self.ks, default=Blob(self.default) if cfg.get("sub_default") else self.default)
         self.db = SimDB(self.smt.db)
         self.smt.db = self.db
         self.ref = RefSMT(self.ks, self.default)
@@ -91,6 +91,7 @@ class SWorld:
             ret = fn()
         except Exception as e:
             self.viol("lookup-mismatch", f"{what} raised {e!r}")
+        k, v = bytes(k), bytes(v)
         old = self.value(k)
         self.model[k] = v
         self.written.add(k)
@@ -150,6 +151,8 @@ class SWorld:
 
     def op_set(self, cmd):
         k, v = unhx(cmd["k"]), unhx(cmd["v"])
+        if cmd.get("sub"):
+            k, v = Blob(k), Blob(v)
         if "vb" in cmd:
             # the value is the body of a node this very store holds (e.g. the 64-byte
             # body of an all-default subtree): legal bytes like any other
@@ -204,17 +207,22 @@ class SWorld:
         return "hit" if readable else "miss"
 
     def op_get(self, cmd):
-        return self.lookup(self.smt, unhx(cmd["k"]), cmd.get("api", "get"))
+        k = unhx(cmd["k"])
+        return self.lookup(self.smt, Blob(k) if cmd.get("sub") else k, cmd.get("api", "get"))
 
     def op_reopen(self, cmd):
         """Operator: a second handle over the same db and root must read identically;
         the run continues on it."""
         try:
-            other = SparseMerkleTree.from_db(self.db, self.smt.root_hash, key_size=self.ks, default=self.default)
+            other = SparseMerkleTree.from_db(self.db, fresh(self.smt.root_hash), key_size=self.ks, default=fresh(self.default))
         except Exception as e:
             self.viol("from-db-differs", f"from_db raised {e!r}")
         if other.root_hash != self.smt.root_hash:
             self.viol("from-db-differs", "from_db handle has another root")
+        if cmd.get("assign"):
+            # also: the live handle's public root_hash attribute is re-assigned (to itself:
+            # a no-op for a correct tree)
+            self.smt.root_hash = fresh(self.smt.root_hash)
         saved = self.smt
         self.smt = other
         try:
@@ -259,7 +267,7 @@ def execute(case, st):
 def make_cfg(rng):
     ks = rng.choice([1, 1, 1, 2, 2, 2, 3, 3, 4, 8, 20, 32])
     default = rng.choice([b"", b"", b"\x00", b"dflt", bytes(32), bytes(range(32))])
-    return {"ks": ks, "default": hx(default)}
+    return {"ks": ks, "default": hx(default), "sub_default": int(rng.random() < 0.2)}
 
 
 def make_keys(rng, ks, n=None):
@@ -303,6 +311,7 @@ def gen_history(rng, keys, vals, n):
     p_body = rng.choice([0.0, 0.0, 0.2, 0.5])
     body_idx = rng.randrange(1000)  # mostly one special body per run, so that several keys share it
     p_hdl = rng.choice([0.0, 0.0, 0.1, 0.3])
+    p_sub = rng.choice([0.0, 0.0, 0.2, 0.5])
     for _ in range(n):
         r = rng.random() * (6 + w_del + 3 + 0.5)
         k = hx(rng.choice(keys))
@@ -323,6 +332,8 @@ def gen_history(rng, keys, vals, n):
             cmds.append({"op": "reopen"})
         if rng.random() < p_hdl:
             cmds[-1]["hdl"] = 1
+        if rng.random() < p_sub and "k" in cmds[-1]:
+            cmds[-1]["sub"] = 1
     return cmds
 
 
